@@ -95,5 +95,8 @@ def run(ctx):
     rule_id_lookup(ctx, r4)
     report_witness(r4, "src/gwf/backends/local.py::LocalOps.submit_target", "src/gwf/backends/local.py:1", cached_witness(ctx, "local-client", local_client_witness),
                    "LocalOps.submit_target([0, 3]) sends one enqueue_task with deps=[0, 3] and returns the pool's id", select=lambda d: "prerequisites" in d or "submit_target returns" in d)
+    from .evalhelpers import server_session_witness
+    report_witness(r4, "src/gwf/backends/local.py::Server.handle_connection::deps", "src/gwf/backends/local.py:1", cached_witness(ctx, "server-session", server_session_witness),
+                   "the prerequisite ids of an enqueue request reach Scheduler.enqueue_task as the re-iterable list the client sent", select=lambda d: "prerequisite" in d or "deps" in d)
     pred = lambda c: any(k in c for k in ("try_handle_task", "_gentle_kill", "create_subprocess", "kill"))
     ctx.reconcile(rules, pred, wit, "src/gwf/backends/local.py::Scheduler.try_handle_task", "src/gwf/backends/local.py:1")
